@@ -99,6 +99,24 @@ def check_net(rec, net, path, g, n, A, w, attrs, tol=0.0, weights=True):
             rec.close(la, Wm, "%s_link_attribute" % path, rtol=tol)
 
 
+def _roundtrips(rec, net, tag, g, n, A, w, attrs, formats):
+    from pyunicorn.core import Network
+    for fmt in formats:
+        fn = "rt_%s_%s.%s" % (os.getpid(), tag, fmt)
+
+        def rt(fmt=fmt, fn=fn):
+            net.save(fn, fileformat=fmt)
+            try:
+                return Network.Load(fn, fileformat=fmt, silence_level=3)
+            finally:
+                if os.path.exists(fn):
+                    os.remove(fn)
+        ok, net2 = rec.call("%s_save_load_%s_raises" % (tag, fmt), rt)
+        if ok:
+            check_net(rec, net2, "%s_save_load_%s" % (tag, fmt), g, n, A, w,
+                      attrs, tol=0.0 if fmt == "pickle" else TEXT_TOL)
+
+
 def _set_attrs(net, attrs):
     for name, Wm in attrs.items():
         net.set_link_attribute(name, Wm)
@@ -164,6 +182,21 @@ def oracle(case, rec):
             ok, net = rec.call("reassign_adjacency_raises", reassign)
             if ok:
                 check_net(rec, net, "reassign_adjacency", g, n, A, w, attrs)
+                _roundtrips(rec, net, "reassign_adjacency", g, n, A, w,
+                            attrs, ("pickle", "graphml"))
+
+            def reassign_keep_weights():
+                # replace the links only: the node weights must survive,
+                # also through save -> Load
+                net.adjacency = np.zeros((n, n), int)
+                net.adjacency = A
+                return _set_attrs(net, attrs)
+            ok, net = rec.call("relink_keep_weights_raises",
+                               reassign_keep_weights)
+            if ok:
+                check_net(rec, net, "relink_keep_weights", g, n, A, w, attrs)
+                _roundtrips(rec, net, "relink_keep_weights", g, n, A, w,
+                            attrs, ("pickle", "gml"))
 
             def reedge():
                 net.set_edge_list([list(e) for e in g["edges"]], n)
@@ -199,6 +232,8 @@ def oracle(case, rec):
         ok, cp = rec.call("from_igraph_copy_raises", net.copy)
         if ok:
             check_net(rec, cp, "from_igraph_copy", g, n, A, w, attrs)
+            _roundtrips(rec, cp, "from_igraph_copy", g, n, A, w, attrs,
+                        ("graphml",))
     # files written by igraph itself (not by Network.save)
     for fmt in ("graphml", "pickle"):
         fn = "ig_%s.%s" % (os.getpid(), fmt)
